@@ -209,6 +209,8 @@ def run(ctx):
     multi_env_stream(ctx, jinja2, ModuleLoader)
     broken_probe(ctx, jinja2, ModuleLoader)
     non_normal_probe(ctx, jinja2, ModuleLoader)
+    literal_names_stream(ctx, jinja2, ModuleLoader)
+    bytecode_probe(ctx)
     same_source_stream(ctx, jinja2, ModuleLoader)
 
 
@@ -359,6 +361,134 @@ def same_source_stream(ctx, jinja2, ModuleLoader):
                 bad = sorted(n for n in ref if got.get(n) != ref[n])[:3]
                 ctx.reject({"sources": srcs, "zip": mode, "differs": {n: [got.get(n), ref[n]] for n in bad}},
                            f"name-dependent environment: precompiled and source renders differ for {bad}: "
+                           f"{[(got.get(n), ref[n]) for n in bad][:2]}", None)
+            else:
+                ctx.validated()
+    finally:
+        shutil.rmtree(root, ignore_errors=True)
+
+
+BYTECODE_CODE = r"""
+import os, sys, shutil, json
+import jinja2
+from jinja2 import Environment, DictLoader, ModuleLoader
+assert not sys.dont_write_bytecode
+root = sys.argv[1]
+sets = json.load(sys.stdin)
+out = []
+for i, srcs in enumerate(sets):
+    target = os.path.join(root, "bc%d" % i)
+    def allr(loader):
+        env = Environment(loader=loader)
+        res = {}
+        for n in sorted(srcs):
+            try:
+                res[n] = env.get_template(n).render(x="X")
+            except Exception as e:
+                res[n] = "X:" + type(e).__name__
+        return res
+    ref = allr(DictLoader(srcs))
+    Environment(loader=DictLoader(srcs)).compile_templates(target, zip=None, log_function=lambda x: None, ignore_errors=False)
+    first = allr(ModuleLoader(target))          # writes __pycache__
+    cached = any(d == "__pycache__" for _, ds, _ in os.walk(target) for d in ds)
+    second = allr(ModuleLoader(target))         # a new loader on the same folder reads the bytecode written before
+    out.append({"ref": ref, "first": first, "second": second, "pycache": cached})
+    shutil.rmtree(target, ignore_errors=True)
+print(json.dumps(out))
+"""
+
+
+def bytecode_probe(ctx):
+    """configuration axis: Python writes bytecode (this check's own process runs with PYTHONDONTWRITEBYTECODE=1).  In a
+    subprocess with bytecode writing enabled, sets compiled into FRESH folders are loaded through two successive
+    ModuleLoaders (the second one finds the __pycache__ the first one wrote) and compared with source loading"""
+    import json
+    hg = HG.HGen(ctx.rng)
+    ig = IG.IGen(ctx.rng, own_globals=0.0, shadow=0.0)
+    sets = []
+    for i in range(ctx.size(12, 120)):
+        if i % 2:
+            sets.append(HG.sources(hg.hierarchy()))
+        else:
+            sets.append(IG.sources(ig.tset()))
+    root = os.path.join(lib.BUILD, f"c31_bc_{os.getpid()}")
+    os.makedirs(root, exist_ok=True)
+    try:
+        rc, out, err = lib.sh([lib.PY, "-c", BYTECODE_CODE, root], timeout=600, inp=json.dumps(sets), cwd="/",
+                              env=dict(lib.IMPL_ENV, PYTHONDONTWRITEBYTECODE=""))
+    finally:
+        shutil.rmtree(root, ignore_errors=True)
+    if rc != 0:
+        ctx.broken.append("C31 bytecode-writing subprocess failed: " + err.strip().splitlines()[-1][:200] if err.strip() else "rc")
+        return
+    res = json.loads(out.strip().splitlines()[-1])
+    for srcs, r in zip(sets, res):
+        ctx.case()
+        ctx.count("bytecode-writing-enabled" + (":pycache" if r["pycache"] else ""))
+        if r["first"] != r["ref"] or r["second"] != r["ref"]:
+            ctx.reject({"sources": srcs, "zip": None, "bytecode": True, "result": r},
+                       "with bytecode writing enabled a set compiled into a fresh folder renders differently from source "
+                       "(first or second ModuleLoader)", None)
+        else:
+            ctx.validated()
+
+
+def literal_names_stream(ctx, jinja2, ModuleLoader):
+    """template sets of a loader whose names are plain keys (DictLoader), with names that are legal but not in normal
+    form (leading slash, ./ segment, doubled slash, .. segment), referenced by exactly those names through extends /
+    import / from-import / include: the source loader finds them, the precompiled set must too.  (The mirror image -
+    a non-normal spelling of a name stored in normal form - is the recorded finding and is not generated here.)"""
+    rng = ctx.rng
+    spellings = ["/%s", "./%s", "mail//%s", "a/./%s", "%s", "x/../%s", "//%s", "%s/", "./%s/."]
+    root = os.path.join(lib.BUILD, f"c31_lit_{os.getpid()}")
+    os.makedirs(root, exist_ok=True)
+    try:
+        for idx in range(ctx.size(45, 450)):
+            base, libn, leaf, page, page2 = (rng.choice(spellings) % n for n in
+                                             ("layout.html", "macros.html", "body.txt", "page.html", "other.html"))
+            if len({base, libn, leaf, page, page2}) < 5:
+                continue
+            missing = rng.choice(spellings) % "nothing.txt"
+            srcs = {
+                base: "B[{% block a %}ba{% endblock %}|{% block b %}bb{{ x }}{% endblock %}]",
+                libn: "{% macro m(v) %}M<{{ v }}>{% endmacro %}{% set k = 'K' %}",
+                leaf: "leaf{{ x }}",
+                page: "{%% extends %r %%}{%% import %r as l %%}{%% block a %%}pa{{ l.m(x) }}{{ super() }}{%% include %r %%}{%% endblock %%}"
+                      % (base, libn, leaf),
+                page2: "{%% from %r import m, k with context %%}{{ m(k) }}|{%% include [%r, %r] %%}|{%% include %r ignore missing %%}"
+                       "|{%% include %r %s %%}" % (libn, missing, leaf, missing, page, rng.choice(["", "without context"])),
+            }
+            mode = (None, "stored", "deflated")[idx % 3]
+            target = os.path.join(root, f"s{idx}" + (".zip" if mode else ""))
+
+            def all_renders(loader):
+                env = jinja2.Environment(loader=loader)
+                res = {}
+                for n in sorted(srcs):
+                    try:
+                        res[n] = env.get_template(n).render(x="X")
+                    except Exception as e:  # noqa
+                        res[n] = "X:" + type(e).__name__
+                return res
+            try:
+                ref = all_renders(jinja2.DictLoader(srcs))
+                try:
+                    jinja2.Environment(loader=jinja2.DictLoader(srcs)).compile_templates(
+                        target, zip=mode, log_function=lambda x: None, ignore_errors=False)
+                    got = all_renders(ModuleLoader(target))
+                except Exception as e:  # noqa
+                    got = {"*": "X:compile_templates/ModuleLoader:" + type(e).__name__ + ":" + str(e)[:80]}
+            finally:
+                if os.path.isdir(target):
+                    shutil.rmtree(target, ignore_errors=True)
+                elif os.path.exists(target):
+                    os.unlink(target)
+            ctx.case(sample={"sources": srcs, "zip": mode, "renders": ref} if idx < 2 else None, key=("lit", idx))
+            ctx.count("literal-non-normal-names")
+            if got != ref:
+                bad = sorted(n for n in ref if got.get(n) != ref[n])[:3]
+                ctx.reject({"sources": srcs, "zip": mode, "loader": "DictLoader-all", "differs": {n: [got.get(n), ref[n]] for n in bad}},
+                           f"names stored in non-normal form: precompiled and DictLoader renders differ for {bad}: "
                            f"{[(got.get(n), ref[n]) for n in bad][:2]}", None)
             else:
                 ctx.validated()
@@ -550,7 +680,7 @@ def render(jinja2, kind, s, srcs, loader, env_kind="plain", modules=False):
     if modules and "async" not in env_kind:
         # Template.module of every template of the set (exported names and values) belongs to "renders exactly like"
         for n in s["templates"]:
-            if n == s["main"] and (s.get("objects") or s.get("lists")):
+            if n == s["main"] and (s.get("objects") or s.get("lists") or s.get("names")):
                 continue
             r += " || " + n + ": " + IG.real_module(jinja2, s, n, env=IG.make_env(jinja2, s, loader=loader, kind=env_kind))
     return r
@@ -560,6 +690,34 @@ def replay(ctx, data):
     jinja2 = lib.use_repo_jinja()
     from jinja2.loaders import ModuleLoader
     case = data.get("case")
+    if data.get("kind") == "failing-input" and case is not None and case.get("loader") == "DictLoader-all":
+        srcs, mode = case["sources"], case["zip"]
+        target = os.path.join(lib.BUILD, f"c31_replay_{os.getpid()}" + (".zip" if mode else ""))
+
+        def allr(loader):
+            env = jinja2.Environment(loader=loader)
+            res = {}
+            for n in sorted(srcs):
+                try:
+                    res[n] = env.get_template(n).render(x="X")
+                except Exception as e:  # noqa
+                    res[n] = "X:" + type(e).__name__
+            return res
+        try:
+            ref = allr(jinja2.DictLoader(srcs))
+            jinja2.Environment(loader=jinja2.DictLoader(srcs)).compile_templates(target, zip=mode, log_function=lambda x: None)
+            got = allr(ModuleLoader(target))
+        finally:
+            if os.path.isdir(target):
+                shutil.rmtree(target, ignore_errors=True)
+            elif os.path.exists(target):
+                os.unlink(target)
+        bad = sorted(n for n in ref if got.get(n) != ref[n])
+        for n in bad[:5]:
+            print(f"  {n}: source {ref[n]!r}  precompiled {got.get(n)!r}")
+        if bad:
+            ctx.reject(case, f"names stored in non-normal form: renders differ for {bad[:3]}")
+        return
     if data.get("kind") == "failing-input" and case is not None and case.get("loader") == "DictLoader":
         srcs = case["sources"]
         target = os.path.join(lib.BUILD, f"c31_replay_{os.getpid()}")
